@@ -32,6 +32,9 @@ CHUNK = 40
 
 def design_list(tier):
     out = [(s, c, 'top') for s, c in catalog.configs(tier)]
+    # pairs of catalogue blocks that are emitted under the same module name, side by side in one design
+    for nm, a, b in catalog.twin_pairs(tier):
+        out.append(('twin', {'block': 'TwinByName', 'module': nm, 'a': [a[0], a[1]], 'b': [b[0], b[1]]}, 'top'))
     if tier == 'quick':
         for s, c in catalog.configs('quick', small=True):
             out.append((s, c, 'wrap1'))
